@@ -275,6 +275,66 @@ def run(ctx: Ctx):
             lat, lon = g_.find_lat_long_along_traj(np.full(len(r[0]), 5.0))
             return (*r, np.asarray(lat), np.asarray(lon), np.asarray(g_.event_mask))
         plotinert.check(ctx, "RegionGeom.__call__", call, {"cfg": list(c), "events": 64}, spellings=("list", "name"))
+    # ---- what the caller does with the arrays it received must not reach the object: small batches in which every event is
+    # kept (and larger ones), results converted in place by the caller (km -> m, rad -> deg), then the positions along the
+    # trajectories asked again: they must be what they were
+    for c in cfgs[:4]:
+        for nb in (1, 3, 12, 200):
+            g_ = make_geom(*c)
+            u_a = rng.uniform(0.2, 0.8, (4, nb))
+            res = g_(u_a.copy())
+            kept = int(np.count_nonzero(g_.event_mask))
+            if kept == 0:
+                continue
+            dist = np.full(kept, 25.0)
+            p0 = tuple(np.array(x, copy=True) for x in g_.find_lat_long_along_traj(dist))
+            state0 = {k_: np.array(getattr(g_, k_), copy=True) for k_ in ("thetaTrSubV", "losPathLen", "betaTrSubN", "thetaS", "phiS")}
+            for arr in res:
+                if isinstance(arr, np.ndarray) and arr.flags.writeable:
+                    arr *= 1000.0
+            u_a *= 0.5
+            p1 = g_.find_lat_long_along_traj(dist)
+            ctx.case(("alias", c[0], nb), None)
+            ctx.count("caller_edits_results_in_place" + (":all-kept" if kept == nb else ""))
+            changed = [k_ for k_, v_ in state0.items() if not np.array_equal(v_, getattr(g_, k_), equal_nan=True)]
+            if changed or not all(np.array_equal(a, b, equal_nan=True) for a, b in zip(p0, p1)):
+                ctx.violation("RegionGeom.__call__", "returned-arrays-alias-the-object",
+                              "after the caller converts the arrays it received in place, the object's geometry (and the positions along the trajectories) change",
+                              {"cfg": list(c), "batch": nb, "kept": kept, "attributes_changed": changed,
+                               "lat_before": float(p0[0][0]), "lat_after": float(np.asarray(p1[0])[0])})
+                break
+    # ---- the distance along the trajectory given as whole kilometres in an integer type (Python int, np.arange, int32): the
+    # same numbers must give the same positions as their float64 copies
+    for c in cfgs[:3]:
+        g_ = make_geom(*c)
+        g_.throw(rng.uniform(0.05, 0.95, (4, 40)))
+        kept = int(np.count_nonzero(g_.event_mask))
+        if not kept:
+            continue
+        base = np.arange(kept) % 7 * 15 + 5
+        ref = tuple(np.asarray(x, dtype=np.float64) for x in g_.find_lat_long_along_traj(base.astype(np.float64)))
+        forms = {"int64": base.astype(np.int64), "int32": base.astype(np.int32), "float32": base.astype(np.float32)}
+        for nm, d_ in forms.items():
+            ctx.case(("dist-dtype", c[0], nm), None)
+            ctx.count("distance_dtype_" + nm)
+            try:
+                got = tuple(np.asarray(x, dtype=np.float64) for x in g_.find_lat_long_along_traj(d_))
+                bad = not all(a.shape == b.shape and np.allclose(a, b, rtol=0, atol=1e-9) for a, b in zip(ref, got))
+                err = None
+            except Exception as ex:  # noqa
+                bad, err = True, f"{type(ex).__name__}: {str(ex)[:100]}"
+            if bad:
+                k_ = int(np.argmax(np.abs(ref[0] - got[0]))) if err is None and ref[0].shape == got[0].shape else -1
+                ctx.violation("RegionGeom.find_lat_long_along_traj", "depends-on-the-dtype-of-the-distances",
+                              f"distances given as {nm} holding the same whole numbers give other positions than their float64 copies" + (f" ({err})" if err else ""),
+                              {"cfg": list(c), "dtype": nm, "distance_km": float(base[k_]) if k_ >= 0 else None,
+                               "lat_float64": float(ref[0][k_]) if k_ >= 0 else None, "lat_other": float(got[0][k_]) if k_ >= 0 else None})
+                break
+        scal = g_.find_lat_long_along_traj(100)
+        scalf = g_.find_lat_long_along_traj(100.0)
+        if not all(np.allclose(np.asarray(a, dtype=np.float64), np.asarray(b, dtype=np.float64), rtol=0, atol=1e-9) for a, b in zip(scal, scalf)):
+            ctx.violation("RegionGeom.find_lat_long_along_traj", "depends-on-the-dtype-of-the-distances",
+                          "the distance 100 (Python int) gives other positions than 100.0", {"cfg": list(c), "dtype": "python int"})
     # ---- structured stream
     nev = 400 if ctx.thorough else 120
     for c in cfgs:
